@@ -845,10 +845,13 @@ def check_tle(out, rng, l1, l2, info, offsets):
                         fam = "native-vs-reference:a0-series"
                 out.fail(fam, "native SGP4 differs from the reference by more than 1 cm inside the full near-Earth model's domain",
                          inp, observed=gotn, expected=expn, dpos_m=dp, dvel_ms=dv)
-        # 5. label independence of the native model
+        # 5. label independence of the native model (outside its domain the native model may return NaN — decayed object,
+        #    eccentricity driven above 1 by the drag polynomial —: then both labels must)
         goto = [float(x) for x in nat.propagate(other)]
         dp, dv = dist(goto, gotn)
-        if not dp <= speed * 2e-6 + 1e-6:
+        if not all(map(math.isfinite, gotn)) and not all(map(math.isfinite, goto)) and not (full and sane):
+            out.tally("native-label=non-finite-for-both-labels-outside-the-domain")
+        elif not dp <= speed * 2e-6 + 1e-6:
             out.fail(family_of(info, off, "native-label"), "native SGP4 gives different states for two labels of the same instant", dict(inp, other=str(other)), observed=goto, expected=gotn, dpos_m=dp)
 
 
@@ -937,13 +940,14 @@ class Recorder:
         self.lines = None
         self.calls = []
 
-    def twoline2rv(self, l1, l2, const):
+    def twoline2rv(self, l1, l2, const, *extra, **kw):
         from sgp4.io import twoline2rv
         from sgp4.earth_gravity import wgs72
         self.lines = [l1, l2]
         self.const_is_wgs72 = const is wgs72
+        self.extra = (extra, kw)          # the model hands exactly (line1, line2, wgs72) to the library: its default mode of operation
         rec = self
-        sat = None if self.stub else twoline2rv(l1, l2, const)
+        sat = None if self.stub else twoline2rv(l1, l2, const, *extra, **kw)
 
         class Proxy:
             def propagate(self, *args):
@@ -1060,6 +1064,9 @@ def wrapper_cases(ctx, out):
             continue
         if not rec.const_is_wgs72:
             out.fail("wrapper-gravity", "twoline2rv is not called with the WGS-72 constants", inp, observed="other", expected="wgs72")
+        if rec.extra != ((), {}):
+            out.fail("wrapper-opsmode", "twoline2rv is called with more than (line1, line2, wgs72): the reference is the library in its default (improved) mode of operation",
+                     inp, observed=repr(rec.extra), expected="no further argument")
         if kind == "stub":
             expect = [1000.0, -2000.0, 3500.0, -4000.0, 5000.0, 6250.0]
         else:
